@@ -313,7 +313,7 @@ func (c *tsCtx) needsMonad(nodes ...ast.Node) bool {
 					found = true
 				}
 				if fo := tsCalledFunc(c.info(), x); fo != nil {
-					if g := c.t.funcs[fo.Origin()]; g != nil && g.effect {
+					if g := c.t.funcs[fo.Origin()]; (g != nil && g.effect) || tspEffectCall(fo.FullName()) {
 						found = true
 					}
 					if fo.FullName() == "fmt.Sprintf" && len(x.Args) > 0 {
